@@ -390,6 +390,43 @@ pub fn eval_builder_order(order: &[usize], mode_bits: u8, macros: bool, fnc1: bo
     Ok(())
 }
 
+/// A two-symbol list at its capacity boundaries: k - 1, k, k + 1 codewords (ASCII bytes and digit
+/// pairs) around the capacity of either member: the pick is the first member in iteration order that
+/// is large enough, a refusal only beyond the larger capacity.
+pub fn eval_pair_boundaries(a: usize, b: usize, st: &mut Stats) -> Result<(), String> {
+    let l = SymbolList::with_whitelist([SIZES[a], SIZES[b]]);
+    let it: Vec<usize> = l.iter().map(bridge::ref_index).collect();
+    let mut ks: Vec<usize> = Vec::new();
+    for c in [SYMBOLS[a].data, SYMBOLS[b].data] {
+        ks.extend([c - 1, c, c + 1]);
+    }
+    ks.sort_unstable();
+    ks.dedup();
+    for k in ks {
+        let want = it.iter().copied().find(|i| SYMBOLS[*i].data >= k);
+        for (what, data, ascii_only) in [("digits", vec![b'1'; 2 * k], false), ("ASCII bytes", vec![0x7Fu8; k], true)] {
+            let r = guarded(|| {
+                let b = DataMatrixBuilder::new().with_symbol_list(l.clone());
+                if ascii_only { b.with_encodation_types(EncodationType::Ascii).encode(&data) } else { b.encode(&data) }
+            })
+            .map_err(|p| format!("encode: {}", p))?;
+            match (r, want) {
+                (Ok(dm), Some(w)) => {
+                    if bridge::ref_index(dm.size) != w {
+                        return Err(format!("{} codewords of {}: {:?} picked, first large enough in iteration order is {}", k, what, dm.size, SYMBOLS[w].name()));
+                    }
+                }
+                (Err(_), None) => {}
+                (Ok(dm), None) => return Err(format!("{} codewords of {} fit {:?}?", k, what, dm.size)),
+                (Err(e), Some(w)) => return Err(format!("{} codewords of {} refused ({:?}) although {} is listed", k, what, e, SYMBOLS[w].name())),
+            }
+            st.count("picks_checked");
+        }
+    }
+    st.count("nontrivial");
+    Ok(())
+}
+
 fn range_forms(a: usize, b: usize) -> [(Bound<usize>, Bound<usize>); 2] {
     [(Bound::Included(a), Bound::Excluded(b)), (Bound::Included(a), Bound::Included(b))]
 }
@@ -513,6 +550,9 @@ pub fn run(ctx: &Ctx) -> i32 {
             if b != a {
                 let enc = SYMBOLS[a].data.max(SYMBOLS[b].data) <= 64;
                 w.check(2, || wdesc(&[a, b], enc), |st| eval_whitelist(&[a, b], enc, st));
+                if a < b {
+                    w.check(2, || json!({"kind": "pair", "a": bridge::size_name(a), "b": bridge::size_name(b)}), |st| eval_pair_boundaries(a, b, st));
+                }
             }
         }
     });
@@ -560,7 +600,7 @@ pub fn run(ctx: &Ctx) -> i32 {
         "rule": "48 sizes x (data/total codewords, pixel dimensions, every finder/alignment module of the region layout, size detection, interleaved blocks via the support of the EC response to every unit data vector) against \
 ISO/IEC 16022 Table 7 / ISO/IEC 21471 (R2, R4); default = the 30 ISO 16022 sizes, extended = 48; enforce_width_in / enforce_height_in for every range a..b, a..=b, a.., (a,inf), ..a, ..=a, .. with a, b in 0..=150 on both lists; \
 compositions of 2 (all) and 3 (quick: half of the pairs extended by every third filter; thorough: all) filters over a reduced bound set; all 4095 subsets of a 12-symbol set as shuffled white-lists (+ reversed), all singles and ordered pairs: membership, \
-iteration by non-decreasing capacity, and for every k in 0..=maxcap+1 the symbol picked for k ASCII codewords (k bytes 0x7F in ASCII mode, and 2k digits with all modes) is the first of the iteration order that is large enough (likewise for macro 05 messages and binary data); builder: for six lists x four mode sets x macros x FNC1 x five messages all 24 orders of the four option setters give the same symbol and codewords, the symbol is in the list, encode_gs1 agrees. All cases distinct; non-trivial = filter result differs from the unfiltered lists / any white-list / any size.",
+iteration by non-decreasing capacity, and for every k in 0..=maxcap+1 the symbol picked for k ASCII codewords (k bytes 0x7F in ASCII mode, and 2k digits with all modes) is the first of the iteration order that is large enough (likewise for macro 05 messages and binary data); every unordered pair of sizes at the capacity boundaries of both members (k - 1, k, k + 1 codewords as digits and as ASCII bytes); builder: for six lists x four mode sets x macros x FNC1 x five messages all 24 orders of the four option setters give the same symbol and codewords, the symbol is in the list, encode_gs1 agrees. All cases distinct; non-trivial = filter result differs from the unfiltered lists / any white-list / any size.",
         "exhaustive": true,
         "picks_checked": ctx.counter("picks_checked"),
     });
@@ -579,6 +619,7 @@ pub fn replay(case: &Value) -> Result<(), String> {
             let fs: Vec<Filter> = case["filters"].as_array().ok_or("filters")?.iter().map(filter_from).collect();
             eval_filters(case["extended"].as_bool().unwrap_or(false), &fs, &mut st)
         }
+        "pair" => eval_pair_boundaries(idx_of(&case["a"])?, idx_of(&case["b"])?, &mut st),
         "builder" => {
             let order: Result<Vec<usize>, String> = case["order"].as_array().ok_or("order")?.iter().map(idx_of).collect();
             eval_builder_order(&order?, case["modes"].as_u64().ok_or("modes")? as u8, case["macros"].as_bool().unwrap_or(true), case["fnc1"].as_bool().unwrap_or(false), &crate::explore::unhex(case["data"].as_str().ok_or("data")?), &mut st)
